@@ -23,6 +23,25 @@ def errJ : Err → Json
   | .shape => Json.mkObj [("err", str "other:shape")]
   | .other => Json.mkObj [("err", str "other")]
 
+def pickKept {α : Type} (keep : List Bool) (l : List α) : List α := ((List.zip keep l).filter (·.1)).map (·.2)
+
+def pickIdx {α : Type} (idx : List Nat) (l : List α) : List α := idx.filterMap (l[·]?)
+
+/-- the reference table with rows picked by position -/
+def colPick (idx : List Nat) : Col → Col
+  | .ints v => .ints (pickIdx idx v)
+  | .strs v => .strs (pickIdx idx v)
+  | .floats v => .floats (pickIdx idx v)
+  | .intLists v => .intLists (pickIdx idx v)
+  | .bools v => .bools (pickIdx idx v)
+  | .strLists v => .strLists (pickIdx idx v)
+  | .floatLists v => .floatLists (pickIdx idx v)
+
+def resPick (sel : Option (List Nat)) (r : Nat × List Col) : Nat × List Col :=
+  match sel with
+  | none => r
+  | some idx => ((pickIdx idx (List.range r.1)).length, r.2.map (colPick idx))
+
 def findFmt (n : String) : Except String Schema :=
   match Gen.C02.all.find? (·.1 == n) with
   | some p => pure p.2
@@ -53,15 +72,36 @@ def handle (op : String) (j : Json) : Except String Json := do
             | .inr cs => Json.mkObj (cs.map (fun kc => (kc.1, colJ kc.2)))
           Json.mkObj [("n", nat r.n), ("cols", Json.arr ((r.fixed.map colJ) ++ [infoJ] ++ (match r.geno with | some g => [colJ g] | none => [])).toArray)]
         | .error e => errJ e
-      else match parseFile fmt S viaOpen bs Gen.C02.vcfPosShift with
+      else match parseFile fmt S viaOpen bs Gen.C02.vcfPosShift ((getNatList j "sel_idx").toOption) with
       | .ok r => resJ r
       | .error e => errJ e
+    let selIdx := (getNatList j "sel_idx").toOption
     let s : Option Json :=
-      if fmt = "fasta" then (specFasta bs).map resJ
+      if fmt = "fasta" then (specFasta bs).map (resJ ∘ resPick selIdx)
       else match docKline.find? (·.1 == fmt) with
-      | some (_, k, mk) => (specKline k mk bs).map resJ
-      | none => if extended then none else (specParse fmt viaOpen bs).map resJ
+      | some (_, k, mk) => (specKline k mk bs).map (resJ ∘ resPick selIdx)
+      | none => if extended then none else (specParse fmt viaOpen bs).map (resJ ∘ resPick selIdx)
     pure (reply m s)
+  | "attrs" =>
+    let fmt ← getStr j "fmt"
+    let S ← findFmt fmt
+    let text ← getStr j "text"
+    let feature ← getStr j "feature"
+    let keys ← (← getArr j "keys").mapM (·.getStr?)
+    let bs : Bytes := text.toList.map Char.toNat
+    let m := match parseFile fmt S true bs with
+      | .error e => errJ e
+      | .ok r =>
+        match r.2[2]?, r.2[3]?, r.2[8]? with
+        | some (Col.strs fts), some (Col.ints starts), some (Col.strs attrs) =>
+          let keep := fts.map (fun f => f == feature.toList.map Char.toNat)
+          let sel := pickKept keep attrs
+          let ids := keys.map (fun k =>
+            let kb := k.toList.map Char.toNat
+            (k, Json.arr ((if fmt == "gtf" then gtfAttr kb sel else gffAttr kb sel).map txt).toArray))
+          Json.mkObj [("n", nat sel.length), ("start", intList (pickKept keep starts)), ("ids", Json.mkObj ids)]
+        | _, _, _ => errJ Err.other
+    pure (reply m none)
   | _ => throw s!"C02: unknown op {op}"
 
 end Drv.C02
